@@ -367,7 +367,7 @@ class DOK(SparseArray, NDArrayOperatorsMixin):
             self.ndim == 1
             and isinstance(key, Iterable)
             and not isinstance(key, tuple)
-            and all(isinstance(i, int | np.integer) for i in key)
+            and all(isinstance(i, int | np.integer | np.bool_) for i in key)
         ):
             key = (key,)
 
